@@ -209,8 +209,14 @@ func (w *World) verifyFunc(fn *ssa.Function, c *FuncContract) (res *FuncResult) 
 	// closures that escaped (handed to a callee the engine did not execute them
 	// through) are verified on their own: arbitrary arguments, arbitrary values
 	// of the captured variables, arbitrary memory
-	if len(c.Sends) > 0 || len(c.Reach) > 0 {
+	if len(c.Sends) > 0 || len(c.Reach) > 0 || len(c.LitEns) > 0 {
 		w.verifyEscapedClosures(x, fn, c)
+	}
+	for _, lc := range c.LitEns {
+		if lc.Clause.Label != "bound" {
+			vc.diag("%s: literal %s: no such function literal returned", name, lc.Lit)
+			res.Err = "binding: function literal not found: $" + lc.Lit
+		}
 	}
 	for _, rc := range c.Reach {
 		if rc.Clause.Label != "bound" && strings.HasPrefix(rc.Stmt, "call:") && !w.writingBaseline {
